@@ -185,6 +185,8 @@ class ModelProcessor(Processor):
         it will use it to map the circuit to the hardware topology.
         If the processor has a set of native gates defined, it will decompose
         the given circuit to the native gates.
+        Gates acting on more than two qubits are decomposed before the
+        mapping, so that every two-qubit gate of the result has been mapped.
 
         Parameters
         ----------
@@ -196,6 +198,8 @@ class ModelProcessor(Processor):
         qc: :class:`.QubitCircuit`
             The transpiled quantum circuit.
         """
+        if self.native_gates is not None:
+            qc = self._decompose_multi_qubit_gates(qc)
         try:
             qc = self.topology_map(qc)
         except NotImplementedError:
@@ -203,6 +207,32 @@ class ModelProcessor(Processor):
         if self.native_gates is not None:
             qc = qc.resolve_gates(basis=self.native_gates)
         return qc
+
+    def _decompose_multi_qubit_gates(self, qc):
+        """
+        Rewrite every gate acting on more than two qubits in the native gates.
+        The topology map only brings two-qubit gates to coupled qubits.
+        A gate on more qubits that is decomposed after the mapping
+        leaves two-qubit gates on qubits that are not coupled.
+        """
+        qc_t = QubitCircuit(
+            qc.N, reverse_states=qc.reverse_states, num_cbits=qc.num_cbits
+        )
+        for gate in qc.gates:
+            controls = getattr(gate, "controls", None) or []
+            targets = gate.targets or []
+            if len(controls) + len(targets) > 2:
+                temp = QubitCircuit(
+                    qc.N,
+                    reverse_states=qc.reverse_states,
+                    num_cbits=qc.num_cbits,
+                )
+                temp.gates = [gate]
+                temp = temp.resolve_gates(basis=self.native_gates)
+                qc_t.gates.extend(temp.gates)
+            else:
+                qc_t.gates.append(gate)
+        return qc_t
 
     def load_circuit(self, qc, schedule_mode="ASAP", compiler=None):
         """
